@@ -228,8 +228,27 @@ def run(E: Engine, rep: Report, tier: str) -> dict:
                     raises = any(isinstance(x, ast.Raise) for x in ast.walk(loop))
                     if raises and ("seq._schedule" in it or "seq.declared_channels" in it) and ".slots" in body_src and ("!=" in body_src or "==" in body_src):
                         timeline_cmp = True
-                    if raises and "active_eom_channels" in it and "get_samples" in body_src and all(q in body_src for q in (".amp", ".det", ".phase")):
-                        eom_sample_cmp = True
+    # EOM sample comparison: under `strict`, for every channel of the EOM list, a mismatch of amp, det or phase
+    # between the old and the new schedule's samples raises (symbolic normal form of the replay function)
+    from .. import sym as _symS
+    from .symutil import S as _SS, dnf as _dnfS, is_ as _isS
+
+    got_q = set()
+    for l in _SS(E, bsm).logged("raise"):
+        for conj in _dnfS(l.cond):
+            if ("name", "strict") not in conj:
+                continue
+            for x in conj:
+                for q in ("amp", "det", "phase"):
+                    m_ = _isS(x, f"not np.all(np.isclose(Q_a.{q}, Q_b.{q}))")
+                    if m_ is None:
+                        continue
+                    sides = sorted(_symS.show(t_)[:200] for t_ in (m_["Q_a"], m_["Q_b"]))
+                    pa = _isS(m_["Q_a"], "Q_s._schedule[Q_e].get_samples()")
+                    pb = _isS(m_["Q_b"], "Q_s._schedule[Q_e].get_samples()")
+                    if pa and pb and pa["Q_e"] == pb["Q_e"] and pa["Q_e"][0] == "elem" and sorted((pa["Q_s"] == ("name", "seq"), pb["Q_s"] == ("name", "seq"))) == [False, True] and any(_symS.contains(t_, ("name", "new_device")) or t_ == ("name", "new_seq") for t_ in (pa["Q_s"], pb["Q_s"])):
+                        got_q.add(q)
+    eom_sample_cmp = got_q == {"amp", "det", "phase"}
     # the strict block must precede the return of the new sequence
     # ---------------------------------------------------------- verdicts
     where = E.where(ccm)
